@@ -108,6 +108,8 @@ class ScopeLog(_Log):
         self.lg = lg
         self.prefix = st.get(self.obj, "_logger_prefix")
         st.assume(V.is_str(self.prefix))
+        for f in ("label", "trace_id", "identifier"):          # declared `str` attributes (type invariant of the input)
+            st.assume(V.is_str(st.get(self.obj, f)))
         self.level = V.VInt(st.fresh("level", I))
         self.message = V.VStr(st.fresh("message", I))
         self.args = sym_tuple(it, "args")
@@ -129,7 +131,7 @@ class ScopeLog(_Log):
         fmt = ca.pos[1]
         ps = parts_of(V.sid(fmt))
         raw = z3.simplify(V.sid(self.prefix))
-        esc = z3.simplify(L.str_replace(V.sid(self.prefix), V.sid(it.mk_str("%")), V.sid(it.mk_str("%%"))))
+        esc = z3.simplify(L.replace_term(it, V.sid(self.prefix), V.sid(it.mk_str("%")), V.sid(it.mk_str("%%"))))
         msg_leaf = [p for p in ps if p.eq(z3.simplify(V.sid(self.message)))]
         st.check("P2:the-text-is-the-scope-prefix-followed-by-the-message",
                  z3.BoolVal(len(ps) == 3 and len(msg_leaf) == 1 and ps[2].eq(msg_leaf[0])))
@@ -139,13 +141,12 @@ class ScopeLog(_Log):
         formatting = z3.Not(V.is_nil(V.items(self.args)))        # logging applies msg % args only when args is non-empty
         if len(ps) == 3:
             lead = ps[0]
-            uses_raw = any(lead.eq(x) for x in (raw, z3.simplify(V.sid(self.prefix))))
-            uses_esc = lead.eq(esc) or any(x.eq(esc) for x in parts_of(lead))
             st.meta.update(formatting=formatting)
+            # semantic, not structural: a path on which the prefix provably holds no "%" may use it verbatim
             st.check("P5:when-%-formatting-applies-the-prefix-contributes-no-conversion-specifier",
-                     z3.Implies(formatting, z3.BoolVal(bool(uses_esc and not uses_raw))))
+                     z3.Implies(formatting, lead == esc))
             st.check("P5:when-no-formatting-applies-the-prefix-is-shown-verbatim",
-                     z3.Implies(z3.Not(formatting), z3.BoolVal(bool(uses_raw and not uses_esc))))
+                     z3.Implies(z3.Not(formatting), lead == raw))
 
     def on_raise(self, it, exc):
         it.st.check("P4:logging-never-raises", z3.BoolVal(False))
